@@ -488,6 +488,9 @@ func init() {
 									stripped = true
 									continue
 								}
+								if tv, ok := f.Info.Types[se.Low]; ok && tv.Value != nil {
+									continue // a leading "vendor/" cut off by its constant length (checked by the decision table below)
+								}
 							}
 							other++
 						}
@@ -502,20 +505,23 @@ func init() {
 				if f == nil {
 					continue
 				}
-				found := 0
+				var sites []*ast.SliceExpr
 				f.inspect(f.Decl.Body, func(nd ast.Node) bool {
 					se, ok := nd.(*ast.SliceExpr)
-					if !ok || !isString(f.Info.TypeOf(se.X)) || se.High != nil || se.Low == nil || !isPathParam(f, se.X) {
-						return true
+					if ok && isString(f.Info.TypeOf(se.X)) && se.High == nil && se.Low != nil && isPathParam(f, se.X) {
+						sites = append(sites, se)
 					}
-					found++
-					// decision table over the abstract inputs that matter: where the last "vendor/" is
-					// (absent, at 0, further in) and whether the byte before it is '/'
-					var rows []string
-					okG, okL := true, true
-					for _, i := range []int{-1, 0, 3} {
-						for _, slash := range []bool{false, true} {
-							env := vendorEnv{f: f, i: i, prevSlash: slash}
+					return true
+				})
+				// decision table over the abstract inputs that matter: j = index of the last "/vendor/"
+				// element (absent, at 0, further in) and whether the path starts with "vendor/"
+				var rows []string
+				okT := len(sites) > 0
+				for _, j := range []int{-1, 0, 5} {
+					for _, h := range []bool{false, true} {
+						env := vendorEnv{f: f, j: j, h: h}
+						cut, fired := -1, 0
+						for _, se := range sites {
 							strip := true
 							for _, g := range f.Guards(se) {
 								if !env.concerns(g.Expr) {
@@ -526,8 +532,9 @@ func init() {
 								}
 								v, ok := env.evalBool(g.Expr)
 								if !ok {
-									okG = false
+									okT = false
 									rows = append(rows, "undecided: "+exprShort(g.Expr))
+									strip = false
 									continue
 								}
 								if g.Neg {
@@ -535,23 +542,33 @@ func init() {
 								}
 								strip = strip && v
 							}
-							want := i != -1 && (i == 0 || slash)
-							if strip != want {
-								okG = false
-							}
-							rows = append(rows, fmt.Sprintf("(at %d, after '/': %v) → strip=%v", i, slash, strip))
-							if want {
-								if lo, ok := env.evalInt(se.Low); !ok || lo != i+len("vendor/") {
-									okL = false
+							if strip {
+								fired++
+								if lo, ok := env.evalInt(se.Low); ok {
+									cut = lo
+								} else {
+									okT = false
 								}
 							}
 						}
+						want := -1
+						switch {
+						case j != -1:
+							want = j + len("/vendor/")
+						case h:
+							want = len("vendor/")
+						}
+						if fired > 1 || cut != want {
+							okT = false
+						}
+						rows = append(rows, fmt.Sprintf("(last /vendor/ at %d, leading vendor/: %v) → cut %d", j, h, cut))
 					}
-					r.Check(okG, f.Name+"/vendor-strip-at-segment-boundary", se.Pos(), "the vendor prefix is removed exactly when the last \"vendor/\" starts the path or follows '/' — decision table: %s", strings.Join(rows, "; "))
-					r.Check(okL, f.Name+"/vendor-strip-cut", se.Pos(), "the cut is right after that \"vendor/\" — low bound: %s", constSym(f, se.Low))
-					return true
-				})
-				r.Check(found == 1, f.Name+"/vendor-strip-site", f.Decl.Pos(), "exactly one path-slicing site (%d)", found)
+				}
+				pos := f.Decl.Pos()
+				if len(sites) > 0 {
+					pos = sites[0].Pos()
+				}
+				r.Check(okT, f.Name+"/vendor-strip-at-last-vendor-element", pos, "everything up to the last path ELEMENT named vendor is removed (\"/vendor/\" anywhere, or a leading \"vendor/\"), nothing otherwise — decision table: %s", strings.Join(rows, "; "))
 			}
 			iw := r.Need(c.Fn(c.W, "isWireImport"), "isWireImport")
 			if iw != nil {
@@ -679,13 +696,13 @@ func isPathParam(f *FuncInfo, e ast.Expr) bool {
 	return false
 }
 
-// vendorEnv evaluates conditions on the position of the last "vendor/" in a
-// path under one abstract input: i = strings.LastIndex(path, "vendor/") and
-// whether path[i-1] is '/'.
+// vendorEnv evaluates conditions on where a path has its vendor element under
+// one abstract input: j = strings.LastIndex(path, "/vendor/") and
+// h = strings.HasPrefix(path, "vendor/").
 type vendorEnv struct {
-	f         *FuncInfo
-	i         int
-	prevSlash bool
+	f *FuncInfo
+	j int
+	h bool
 }
 
 func (v vendorEnv) concerns(e ast.Expr) bool {
@@ -695,7 +712,7 @@ func (v vendorEnv) concerns(e ast.Expr) bool {
 		if !ok {
 			return true
 		}
-		if v.f.isCall(v.f.deref(x), "strings.LastIndex") != nil {
+		if v.f.isCall(v.f.deref(x), "strings.LastIndex", "strings.Index", "strings.HasPrefix", "strings.Contains", "strings.HasSuffix") != nil {
 			hit = true
 		}
 		switch y := x.(type) {
@@ -713,6 +730,13 @@ func (v vendorEnv) concerns(e ast.Expr) bool {
 	return hit
 }
 
+func (v vendorEnv) constStr(e ast.Expr) (string, bool) {
+	if tv, ok := v.f.Info.Types[ast.Unparen(e)]; ok && tv.Value != nil && tv.Value.Kind() == constant.String {
+		return constant.StringVal(tv.Value), true
+	}
+	return "", false
+}
+
 func (v vendorEnv) evalInt(e ast.Expr) (int, bool) {
 	e = ast.Unparen(e)
 	if tv, ok := v.f.Info.Types[e]; ok && tv.Value != nil {
@@ -728,8 +752,8 @@ func (v vendorEnv) evalInt(e ast.Expr) (int, bool) {
 		}
 	case *ast.CallExpr:
 		if v.f.calleeName(x) == "strings.LastIndex" && len(x.Args) == 2 && isPathParam(v.f, x.Args[0]) {
-			if tv, ok := v.f.Info.Types[x.Args[1]]; ok && tv.Value != nil && tv.Value.ExactString() == `"vendor/"` {
-				return v.i, true
+			if s, ok := v.constStr(x.Args[1]); ok && s == "/vendor/" {
+				return v.j, true
 			}
 		}
 	case *ast.BinaryExpr:
@@ -747,7 +771,6 @@ func (v vendorEnv) evalInt(e ast.Expr) (int, bool) {
 	return 0, false
 }
 
-// prevByteIsSlash recognises path[i-1] compared with '/', and HasSuffix(path[:i], "/").
 func (v vendorEnv) evalBool(e ast.Expr) (bool, bool) {
 	e = ast.Unparen(e)
 	switch x := e.(type) {
@@ -761,15 +784,16 @@ func (v vendorEnv) evalBool(e ast.Expr) (bool, bool) {
 			return !b, ok
 		}
 	case *ast.CallExpr:
-		if v.f.calleeName(x) == "strings.HasSuffix" && len(x.Args) == 2 {
-			if se, ok := ast.Unparen(x.Args[0]).(*ast.SliceExpr); ok && se.Low == nil && se.High != nil && isPathParam(v.f, se.X) {
-				if hi, ok := v.evalInt(se.High); ok && hi == v.i {
-					if tv, ok := v.f.Info.Types[x.Args[1]]; ok && tv.Value != nil && tv.Value.ExactString() == `"/"` {
-						if v.i < 0 {
-							return false, false // path[:-1] panics
-						}
-						return v.i > 0 && v.prevSlash, true
-					}
+		if len(x.Args) == 2 && isPathParam(v.f, x.Args[0]) {
+			s, ok := v.constStr(x.Args[1])
+			switch v.f.calleeName(x) {
+			case "strings.HasPrefix":
+				if ok && s == "vendor/" {
+					return v.h, true
+				}
+			case "strings.Contains":
+				if ok && s == "/vendor/" {
+					return v.j != -1, true
 				}
 			}
 		}
@@ -794,22 +818,6 @@ func (v vendorEnv) evalBool(e ast.Expr) (bool, bool) {
 			}
 			return v.evalBool(x.Y)
 		case token.EQL, token.NEQ, token.LSS, token.LEQ, token.GTR, token.GEQ:
-			// the byte before the match
-			for _, pair := range [][2]ast.Expr{{x.X, x.Y}, {x.Y, x.X}} {
-				if ix, ok := ast.Unparen(pair[0]).(*ast.IndexExpr); ok && isPathParam(v.f, ix.X) {
-					k, ok := v.evalInt(ix.Index)
-					if !ok || k != v.i-1 {
-						return false, false
-					}
-					if k < 0 {
-						return false, false // would index out of range on this input
-					}
-					if c, ok := v.evalInt(pair[1]); ok && c == '/' && (x.Op == token.EQL || x.Op == token.NEQ) {
-						return v.prevSlash == (x.Op == token.EQL), true
-					}
-					return false, false
-				}
-			}
 			a, ok1 := v.evalInt(x.X)
 			b, ok2 := v.evalInt(x.Y)
 			if ok1 && ok2 {
